@@ -42,7 +42,7 @@ def joinLevels : List Bytes → Bytes
 /-- 4.8.2: `$share/{ShareName}/{filter}`; ShareName at least one character without '/', '+', '#';
     the remainder is a Topic Filter -/
 def classify (f : Bytes) : FilterClass :=
-  if f.isEmpty || f.length > 65535 then .invalid
+  if f.isEmpty || f.length > 65535 || f.contains 0 then .invalid
   else match levels f with
     | first :: rest =>
       if first == sharePrefix then
@@ -55,22 +55,29 @@ def classify (f : Bytes) : FilterClass :=
       else if levelsOk (first :: rest) then .plain ((first :: rest).any hasWildChar) else .invalid
     | [] => .invalid
 
-/-- a Topic Name (4.7): non-empty, no wildcard characters -/
-def topicNameValid (t : Bytes) : Bool := !t.isEmpty && t.length ≤ 65535 && !hasWildChar t
+/-- a Topic Name (4.7): non-empty, no wildcard characters, no null character [MQTT-4.7.3-2] -/
+def topicNameValid (t : Bytes) : Bool := !t.isEmpty && t.length ≤ 65535 && !hasWildChar t && !t.contains 0
 
+/-- Binary Data (1.5.6): a two-byte length -/
 def strOk (b : Bytes) : Bool := b.length ≤ 65535
 def optOk : Option Bytes → Bool
   | none => true
   | some b => strOk b
+/-- UTF-8 Encoded String (1.5.4): a two-byte length, and no null character [MQTT-1.5.4-2] (its only one-byte encoding is
+    0x00, and 0x00 encodes nothing else) -/
+def utf8Ok (b : Bytes) : Bool := b.length ≤ 65535 && !b.contains 0
+def optStrOk : Option Bytes → Bool
+  | none => true
+  | some b => utf8Ok b
 def upsOk : UserProps → Bool
   | none => true
-  | some ps => ps.all (fun p => strOk p.name && strOk p.value)
+  | some ps => ps.all (fun p => utf8Ok p.name && utf8Ok p.value)
 
 /-- static rules for an application PUBLISH (before a packet identifier is assigned) -/
 def publishStaticOk (p : Publish) : Bool :=
   topicNameValid p.topic && p.qos ≤ 2 && !p.dup && p.topicAlias ≠ some 0 && p.subscriptionIds.isNone
   && (match p.responseTopic with | none => true | some t => topicNameValid t)
-  && optOk p.correlationData && optOk p.contentType && upsOk p.userProps
+  && optOk p.correlationData && optStrOk p.contentType && upsOk p.userProps
   && (match p.payloadFormat with | none => true | some f => f ≤ 1)
 
 def subscribeStaticOk (p : Subscribe) : Bool :=
@@ -82,14 +89,14 @@ def unsubscribeStaticOk (p : Unsubscribe) : Bool :=
   !p.topicFilters.isEmpty && upsOk p.userProps && p.topicFilters.all (fun f => classify f != .invalid)
 
 def disconnectStaticOk (p : Disconnect) : Bool :=
-  optOk p.reasonString && optOk p.serverReference && upsOk p.userProps
+  optStrOk p.reasonString && optStrOk p.serverReference && upsOk p.userProps
 
 def connectStaticOk (p : Connect) : Bool :=
-  optOk p.clientId && optOk p.username && optOk p.password && optOk p.authMethod && optOk p.authData
+  optStrOk p.clientId && optStrOk p.username && optOk p.password && optStrOk p.authMethod && optOk p.authData
   && upsOk p.userProps && p.receiveMaximum ≠ some 0 && p.maximumPacketSize ≠ some 0
   && (match p.will with
       | none => true
-      | some w => topicNameValid w.topic && optOk w.payload && optOk w.contentType && optOk w.correlationData
+      | some w => topicNameValid w.topic && optOk w.payload && optStrOk w.contentType && optOk w.correlationData
           && (match w.responseTopic with | none => true | some t => topicNameValid t) && upsOk w.userProps && w.qos ≤ 2)
 
 /-- what a server announced (CONNACK), with the standard's defaults for absent properties -/
